@@ -1,5 +1,16 @@
 # property id -> claim text (filled as checks are admitted; everything else is listed under NA with the reason)
 CLAIMS = {
+ 'C06': {'technique': 'static analysis: traversal-callback classification + root check, receiver provenance (reaching definitions over a GetChild/GetParent algebra), guard dominance for privileges, teardown pairing on the CFG',
+         'text': 'Decides the ownership structure behind C06 for all command histories at once: every node-mutating or node-collecting traversal is rooted at the session\'s own directory; the receiver of every '
+                 'client-reachable DataNode mutator call is derived from the own subtree; subscriber marks are edited under the own session id only; kick and ban/require forwarding are dominated by the matching '
+                 'privilege test and privilege bits are never copied from a client Message; teardown removes the own node with notification, all marks and cached tables, and the server detaches before forgetting. '
+                 'These are necessary conditions; equality with the run without the departed session is not decided.',
+         'note': 'Assumes DoTraversal only visits strict descendants of the root it is given. Frozen exceptions (attach/cleanup of own host+session node, quiet temporary payload swap) are listed with reasons in the evidence.'},
+ 'C13': {'technique': 'static analysis: mutation->notification pairing with argument agreement on the CFG (must-follow with failure/quiet escape edges), single-writer and snapshot-shape checks on the resolved AST',
+         'text': 'Decides that the index update log is complete and position-faithful by construction: every insert/remove on DataNode::_orderedIndex is followed, on every non-failure non-quiet path, by the '
+                 'notification with the matching op code and the same position expression; only DataNode mutates the index; RemoveChild unlinks the index entry before dropping the child; the snapshot is '
+                 'CLEARED followed by in-order inserts indexed by the loop variable. Replay equality over arbitrary histories is not decided.',
+         'note': 'Assumes NotifySubscribersThatNodeIndexChanged transmits its arguments unchanged.'},
  'C02': {'technique': 'static analysis: interprocedural taint->sink guard dominance on the CFG, recursion-guard and abort reachability on the call graph, loop progress, sticky-status path rule',
          'text': 'Decides the structural necessary conditions of parser safety for all inputs at once: every wire-derived value reaching a child-reader budget, copy length, pointer offset/index, '
                  'or (inside the Message parsers) an allocation size is bounded by a trusted quantity on a dominating edge and tainted arithmetic is overflow-checked; reader primitives check themselves; '
@@ -14,6 +25,6 @@ CLAIMS = {
          'note': 'Assumes const methods with by-value/const-ref parameters do not change what loop tests read; logging and destructor hubs are cut from the recursion graph.'},
 }
 _PENDING = 'check under construction in this session (see DESIGN.md section 4); not claimed until its rule is admitted'
-NA = {pid: _PENDING for pid in ['C01','C03','C04','C05','C06','C08','C10','C11','C12','C13','C14','C15','C16','C17','C18','C19','C20']}
+NA = {pid: _PENDING for pid in ['C01','C03','C04','C05','C08','C10','C11','C12','C14','C15','C16','C17','C18','C19','C20']}
 NA['C09'] = ('refinement of an ideal ordered map over operation histories with live iterators: its mechanisms are co-located with the mutations they protect inside single template functions; '
              'no sound structural necessary condition was found that is not either compiler-enforced or a frozen-fragment match (DESIGN.md section 4, C09)')
